@@ -477,7 +477,7 @@ type ssaRun struct {
 
 // Run executes the compiled top-level function with the four buffer pointers as arguments.
 func (g *GenericProgram) Run(m *Machine) {
-	r := &ssaRun{m: m, arena: make([]Word, 1<<14)}
+	r := &ssaRun{m: m, arena: make([]Word, g.arenaSize())}
 	m.Where = func() string { return r.where }
 	if g.Top == nil {
 		m.Unsupported("top-level function could not be compiled")
@@ -744,4 +744,20 @@ func (g *GenericProgram) UnmodelledInstrs() []string {
 		}
 	}
 	return out
+}
+
+// arenaSize is the number of frame slots needed for the deepest possible call chain (the call
+// depth is limited to 64; recursion is not modelled).
+func (g *GenericProgram) arenaSize() int {
+	max := 0
+	for _, f := range g.Funcs {
+		if f.nslots > max {
+			max = f.nslots
+		}
+	}
+	n := 0
+	if g.Top != nil {
+		n = g.Top.nslots
+	}
+	return n + 8*max + 64
 }
